@@ -61,6 +61,8 @@ def prefix(mode):
 # ----------------------------------------------------------------------------------------------
 # abstract operations of a history (python tuples) and their two renderings
 #   ("send", api, text)  api in send/sendraw/sendst     user submits text
+#   ("send", "sendraw", text, tail)                      xmpp_send_raw(conn, buf, len(text)) where buf = text + tail is a longer
+#                                                        NUL-terminated buffer: the element is `text`, `tail` must never show up
 #   ("disc",)                                            xmpp_disconnect -> library queues </stream:stream>
 #   ("srv_r",)            server sends <r/> (sm mode): iteration, then library queues <a h="0"/>
 #   ("srv_bad",)          server sends unparsable bytes: iteration, then library queues a stream error
@@ -78,7 +80,10 @@ def render(mode, ops):
     for o in ops:
         k = o[0]
         if k == "send":
-            sw.append("%s %s" % (o[1], hx(o[2])))
+            if len(o) > 3 and o[3]:
+                sw.append("sendraw %s %d" % (hx(o[2] + o[3]), len(o[2].encode())))
+            else:
+                sw.append("%s %s" % (o[1], hx(o[2])))
             md.append("U " + hx(o[2]))
         elif k == "disc":
             sw.append("disc")
@@ -365,7 +370,10 @@ def small_scope(maxlen, mode):
                 for s in seq:
                     if s == "u":
                         n += 1
-                        ops.append(("send", "sendraw", "%d:%s" % (n, "abc"[:n % 3 + 1])))
+                        if n % 2:       # a slice of a longer buffer
+                            ops.append(("send", "sendraw", "%d:%s" % (n, "abc"[:n % 3 + 1]), "#rest-of-buffer"[:n + 4]))
+                        else:
+                            ops.append(("send", "sendraw", "%d:%s" % (n, "abc"[:n % 3 + 1])))
                     elif s == "l":
                         ops.append(("disc",) if mode != "sm" or n % 2 == 0 else ("srv_r",))
                     elif s == "r":
@@ -387,7 +395,10 @@ def random_history(rng, mode, nops):
         r = rng.random()
         if r < 0.30:
             api, t = tx.make()
-            ops.append(("send", api, t))
+            if api == "sendraw" and t and rng.random() < 0.5:
+                ops.append(("send", api, t, "~" + "".join(rng.choice("TAILtail<>/") for _ in range(rng.choice([0, 1, 5, 30])))))
+            else:
+                ops.append(("send", api, t))
             qtexts += 1
         elif r < 0.40:
             c = rng.random()
@@ -464,6 +475,10 @@ def gen_cases(chk):
                 ops = ([("tx", sched)] if sched else []) + [("send", api, t), ("send", api, t2), ("qlen",), ("run",), ("qlen",),
                                                           ("drop", "y"), ("run",), ("dumpq",)]
                 cases.append((rng.choice(MODES), ops, "boundary-1024"))
+                if api == "sendraw":      # the same as slices of longer buffers
+                    ops = ([("tx", sched)] if sched else []) + [("send", api, t, "~tail"), ("send", api, t2, "~" + "x" * 1100), ("qlen",),
+                                                              ("run",), ("qlen",), ("drop", "y"), ("drop", "o"), ("run",), ("dumpq",)]
+                    cases.append((rng.choice(MODES), ops, "boundary-1024-slice"))
     return cases
 
 
@@ -546,7 +561,7 @@ def evaluate(chk, cases, exe, mexe):
 
 
 def run(chk):
-    chk.rule = ("histories = interleavings of user sends (xmpp_send_raw_string / xmpp_send_raw / xmpp_send; texts of 1..40 bytes and at "
+    chk.rule = ("histories = interleavings of user sends (xmpp_send_raw_string / xmpp_send_raw incl. slices of a longer buffer (len < strlen) / xmpp_send; texts of 1..40 bytes and at "
                 "1021..1026/2048/4097 bytes around the 1024-byte _send_valist buffer), library-generated sends (</stream:stream> by "
                 "xmpp_disconnect, <a/> provoked by the server's <r/>, stream error provoked by unparsable input, the SM <r/> piggy-back), "
                 "server acks, write schedules (all / k<n> / EAGAIN / hard error), loop iterations, drop oldest/youngest, queue length, "
